@@ -65,6 +65,25 @@ impl Oracle for C03 {
                 }
             }
         }
+        // the commit that removes this client, handed over while the client stands in the commit's
+        // parent state, is its removal being processed: it must not be refused (a refusal leaves
+        // the client active in a group it is no longer part of)
+        if let Op::Deliver { ev } = &rec.step.op {
+            if let Some(pe) = w.ev(*ev).cloned() {
+                if pe.kind == EvKind::Commit && !pe.refs_proposals && is_refusal(&rec.class) && crate::model::commit_is_authorised(w, &pe) {
+                    let removes_me = w.history.iter().any(|r| r.step.id == pe.origin.0 && matches!(&r.step.op, Op::RemoveMembers { g, who } if *g == pe.g && who.contains(&node)));
+                    let in_parent = rec.pre_state.get(&pe.g).map(|s| s.1 == pe.parent_state).unwrap_or(false);
+                    let first_time = w.delivered[node].get(ev).map(|d| d.1 <= 1).unwrap_or(true);
+                    // (a client that a competing commit already evicted stays where it was)
+                    let was_active = w.prev_view.groups.get(&w.gid_hex(pe.g)).map(|gv| {
+                        gv.record.as_ref().map(|r| r.state == "active").unwrap_or(false) && gv.mls.as_ref().map(|m| m.active && m.own_leaf.is_some()).unwrap_or(false)
+                    }).unwrap_or(false);
+                    if removes_me && in_parent && first_time && was_active {
+                        viols.push(("own-removal-refused", format!("g{} n{node}: the commit that removes it ({}) was handed over in its parent state and answered {}", pe.g, pe.desc, rec.outcome.chars().take(80).collect::<String>())));
+                    }
+                }
+            }
+        }
         // an app message returned by process_message to a client that is not a member of its epoch
         if let Op::Deliver { ev } = &rec.step.op {
             if let Some(pe) = w.ev(*ev).cloned() {
@@ -156,7 +175,7 @@ pub fn spec() -> CheckSpec {
     CheckSpec {
         id: "C03",
         level: "exploration",
-        rule: "membership-churn world runs (adds, removals, leaves with admin auto-commit, self-updates, id rotations, re-invites, two groups sharing members), every message carrying a unique canary; ex-members keep their storage (incl. past exporter secrets) and keep being handed every event of the group in seeded orders, repeatedly; clients that never held the group are handed its events and invitations addressed to others (they must refuse, hold nothing, store nothing); oracle after every call: a client stores / is returned a message only if its identity is in the member set (ground-truth ledger) of the state the message was sent in; evicted => record inactive and create_message fails; final byte scan of unencrypted SQLite files for foreign canaries; non-trivial = a removal, a later message, and that message fed to the ex-member; distinct = delivery signature; variant multi-device: users with 1-3 devices (one identity, one leaf and one storage per device), a single admin adds and removes USERS (also two by one commit), every device keeps being handed every event: ground truth per user and epoch, same clauses, plus: after a removal the admin's roster no longer lists the identity",
+        rule: "membership-churn world runs (adds, removals, leaves with admin auto-commit, self-updates, id rotations, re-invites, two groups sharing members), every message carrying a unique canary; ex-members keep their storage (incl. past exporter secrets) and keep being handed every event of the group in seeded orders, repeatedly; clients that never held the group are handed its events and invitations addressed to others (they must refuse, hold nothing, store nothing); oracle after every call: a client stores / is returned a message only if its identity is in the member set (ground-truth ledger) of the state the message was sent in; evicted => record inactive and create_message fails; the commit that removes a client, handed over in its parent state, is not refused; final byte scan of unencrypted SQLite files for foreign canaries; non-trivial = a removal, a later message, and that message fed to the ex-member; distinct = delivery signature; variant multi-device: users with 1-3 devices (one identity, one leaf and one storage per device), a single admin adds and removes USERS (also two by one commit), every device keeps being handed every event: ground truth per user and epoch, same clauses, plus: after a removal the admin's roster no longer lists the identity",
         variants: vec![
             Variant { name: "mem", profile: Profile { backend: BackendMix::Memory, ..base.clone() }, runs_quick: 300, runs_thorough: 15000, oracle: mk, guarded: false, configure_gen: Some(churn), post: None, custom: None },
             Variant { name: "mixed", profile: Profile { backend: BackendMix::Mixed, allow_restart: true, ..base.clone() }, runs_quick: 100, runs_thorough: 5000, oracle: mk, guarded: false, configure_gen: Some(churn), post: None, custom: None },
